@@ -41,7 +41,7 @@ use std::alloc::{Layout, alloc, dealloc};
 use std::cell::RefCell;
 use std::ptr::NonNull;
 use std::sync::atomic::{AtomicPtr, AtomicU32, AtomicU64, Ordering};
-use std::sync::{Arc, Weak};
+use std::sync::{Arc, Mutex, Weak};
 use std::time::{Instant, SystemTime, UNIX_EPOCH};
 
 /// Magic constants for corruption detection
@@ -669,91 +669,44 @@ unsafe impl Send for SecureChunk {}
 // the pointer requires external synchronization (which SecurePooledPtr provides).
 unsafe impl Sync for SecureChunk {}
 
-/// Lock-free stack for high-performance chunk storage (Treiber stack)
+/// Stack of free chunks shared by all threads.
+///
+/// This used to be a Treiber stack of heap nodes: `pop` read `(*head).next` after a
+/// concurrent `pop` could already have freed that node (use after free), and its
+/// pointer-only compare-exchange let a stale `next` win when the same address was pushed
+/// again in between (ABA), handing one chunk to two threads.  Safe reclamation needs hazard
+/// pointers or epochs; a mutex-protected vector is correct, and the per-thread caches keep
+/// this structure off the allocation fast path.
 struct LockFreeStack<T> {
-    head: AtomicPtr<Node<T>>,
-}
-
-struct Node<T> {
-    data: T,
-    next: *mut Node<T>,
+    items: Mutex<Vec<T>>,
 }
 
 impl<T> LockFreeStack<T> {
     fn new() -> Self {
         Self {
-            head: AtomicPtr::new(std::ptr::null_mut()),
+            items: Mutex::new(Vec::new()),
         }
     }
 
     fn push(&self, item: T) {
-        let new_node = Box::into_raw(Box::new(Node {
-            data: item,
-            next: std::ptr::null_mut(),
-        }));
+        let mut items = self.items.lock().unwrap_or_else(|e| e.into_inner());
+        items.push(item);
         #[cfg(zipora_verif)]
-        crate::verif_hooks::sched_point("tb.push.alloc", new_node as usize as u64, 0);
-
-        loop {
-            let head = self.head.load(Ordering::Acquire);
-            unsafe {
-                (*new_node).next = head;
-            }
-            #[cfg(zipora_verif)]
-            crate::verif_hooks::sched_point("tb.push.linked", new_node as usize as u64, head as usize as u64);
-
-            if self
-                .head
-                .compare_exchange_weak(head, new_node, Ordering::Release, Ordering::Relaxed)
-                .is_ok()
-            {
-                #[cfg(zipora_verif)]
-                crate::verif_hooks::sched_point("tb.push.cas", new_node as usize as u64, 1);
-                break;
-            }
-        }
+        crate::verif_hooks::event("tb.push", items.len() as u64, 0, 0);
     }
 
     fn pop(&self) -> Option<T> {
-        loop {
-            let head = self.head.load(Ordering::Acquire);
-            if head.is_null() {
-                return None;
-            }
-            #[cfg(zipora_verif)]
-            crate::verif_hooks::sched_point("tb.pop.loaded", head as usize as u64, 0);
-
-            let next = unsafe { (*head).next };
-            #[cfg(zipora_verif)]
-            crate::verif_hooks::sched_point("tb.pop.next", head as usize as u64, next as usize as u64);
-            if self
-                .head
-                .compare_exchange_weak(head, next, Ordering::Release, Ordering::Relaxed)
-                .is_ok()
-            {
-                #[cfg(zipora_verif)]
-                crate::verif_hooks::sched_point("tb.pop.cas", head as usize as u64, next as usize as u64);
-                let data = unsafe { Box::from_raw(head).data };
-                #[cfg(zipora_verif)]
-                crate::verif_hooks::sched_point("tb.pop.freed", head as usize as u64, 0);
-                return Some(data);
-            }
-        }
+        let mut items = self.items.lock().unwrap_or_else(|e| e.into_inner());
+        let item = items.pop();
+        #[cfg(zipora_verif)]
+        crate::verif_hooks::event("tb.pop", items.len() as u64, item.is_some() as u64, 0);
+        item
     }
 
     fn is_empty(&self) -> bool {
-        self.head.load(Ordering::Acquire).is_null()
+        self.items.lock().unwrap_or_else(|e| e.into_inner()).is_empty()
     }
 }
-
-impl<T> Drop for LockFreeStack<T> {
-    fn drop(&mut self) {
-        while self.pop().is_some() {}
-    }
-}
-
-unsafe impl<T: Send> Send for LockFreeStack<T> {}
-unsafe impl<T: Send> Sync for LockFreeStack<T> {}
 
 /// Thread-local cache for reduced contention
 #[derive(Default)]
